@@ -380,6 +380,7 @@ func c07Body(s *simkit.Sim, rc *simkit.RunCtx) {
 	}
 	ensure()
 	fairStart := s.Now()
+	fairStartSteps := s.Steps
 	// the budget: derived from protocol constants with a wide margin (see DESIGN.md, C07)
 	maxLC := uint32(0)
 	for _, t := range union {
@@ -418,6 +419,11 @@ func c07Body(s *simkit.Sim, rc *simkit.RunCtx) {
 	}
 	ok := s.RunUntil(converged, budget, 500*time.Millisecond)
 	sample.ConvergedInS = (s.Now() - fairStart).Seconds()
+	fairSteps := s.Steps - fairStartSteps
+	if !ok && s.Overrun() && fairSteps < 150000 {
+		// the run's step budget was spent before the fair suffix had a real chance: inconclusive
+		return
+	}
 	sample.Union = len(union)
 	sample.Messages = map[string]int{}
 	for k, v := range w.P2P.Sent {
@@ -478,9 +484,10 @@ func c07Body(s *simkit.Sim, rc *simkit.RunCtx) {
 			txs, _ := w.Nodes[name].State().FindBetweenLC(ctx, 0, dag.MaxLamportClock)
 			missing += fmt.Sprintf(" %s=%d/%d", name, len(txs), len(union))
 		}
-		s.Fail("C07.converge", shape, "nodes did not converge to the union within %v of virtual time after faults stopped (gossip %dms, %s):%s", budget, gossipMs, sample.Topology, missing)
+		s.Fail("C07.converge", shape, "nodes did not converge to the union within %v of virtual time / %d scheduler steps after faults stopped (gossip %dms, %s):%s", s.Now()-fairStart, fairSteps, gossipMs, sample.Topology, missing)
 		return
 	}
+	s.Info.Addn("max:converge-steps", fairSteps)
 	s.Info.Addn("max:converge-virtual-ms", int(sample.ConvergedInS*1000))
 	s.Info.Addn("max:converge-permille-of-budget", int(sample.ConvergedInS*1000/sample.BudgetS))
 	s.Info.Addn("sum:converge-virtual-ms", int(sample.ConvergedInS*1000))
